@@ -159,23 +159,49 @@ def case_jtvec(case):
             w[i] = Qc.var(f"w{list(i)}")
         w = w.view(symx.SymArray)
         full = (recs, aniso, mapping, False, False)
-        obs = c07.check_identities(
-            E, c, X, full, grp, lambda sim: (sim.misfit, sim.jtvec(w))[1],
-            pid=PID)
+        snap = {}
+
+        def run_jtvec(sim):
+            sim.misfit
+            real_b = sim._bcompute
+
+            def bc():
+                # the residual the back-propagation is built from
+                snap['seen'] = sim.data.residual.data.copy()
+                return real_b()
+            sim._bcompute = bc
+            try:
+                out = sim.jtvec(w)
+            finally:
+                del sim._bcompute
+            snap['after'] = sim.data.residual.data.copy()
+            # the identities below are evaluated for the residual that the
+            # back-propagation saw (jtvec restores the data residual)
+            sim.data.residual[...] = snap['seen']
+            return out
+        obs = c07.check_identities(E, c, X, full, grp, run_jtvec, pid=PID)
         for o in obs:
             o['key'] = 'jtvec: '+(o.get('key') or '')
             if o.get('cex'):
                 o['cex'] = dict(kind='jtvec', case=list(case))
         # the vector handed over is what the adjoint source was built from
         sim = X['sim']
-        ok = all(c.valid(c07.eqc(a*b, ww))[0] == 'held' for a, b, ww in zip(
-            sim.data.residual.data.ravel(), sim.data.weights.data.ravel(),
-            w.ravel()))
-        obs.append(ob("jtvec: stored residual * weights == w (the adjoint "
-                      "source is built from w itself)", 'held' if ok else
-                      'cex', group=grp, cls='NRA-small',
+        ok = 'seen' in snap and all(
+            c.valid(c07.eqc(a*b, ww))[0] == 'held' for a, b, ww in zip(
+                snap['seen'].ravel(), sim.data.weights.data.ravel(),
+                w.ravel()))
+        # afterwards the stored residual is the one of the data again
+        dres = (sim.data.synthetic - sim.data.observed).data
+        ok2 = 'after' in snap and all(
+            c.valid(c07.eqc(a, b))[0] == 'held' for a, b in zip(
+                snap['after'].ravel(), dres.ravel()))
+        obs.append(ob("jtvec: the adjoint source is built from residual * "
+                      "weights == w itself; afterwards the stored residual "
+                      "is synthetic - observed again", 'held' if ok and ok2
+                      else 'cex', group=grp, cls='NRA-small',
                       key="jtvec: residual replacement wrong",
-                      cex=dict(kind='jtvec', case=list(case)) if not ok
+                      cex=dict(kind='jtvec', case=list(case),
+                               what='residual') if not (ok and ok2)
                       else None))
         return obs
     finally:
@@ -259,6 +285,8 @@ def replay(cex):
     jv = sim.jvec(v)
     w = rng.normal(size=survey.shape)+1j*rng.normal(size=survey.shape)
     jt = sim.jtvec(w)
+    dres = (sim.data.synthetic-sim.data.observed).data
+    rr = np.abs(sim.data.residual.data-dres).max()/np.abs(dres).max()
     adj = abs(np.real(np.vdot(w, jv))-np.sum(jt*v))/abs(np.sum(jt*v))
     # finite difference of the data along v
     step = 1e-4
@@ -277,10 +305,11 @@ def replay(cex):
     g = sim2.gradient.copy()
     jt2 = sim2.jtvec(sim2.data.residual.data*sim2.data.weights.data)
     ge = np.abs(g-jt2).max()/np.abs(g).max()
-    bad = adj > 1e-6 or fde > 1e-4 or ge > 1e-8
+    bad = adj > 1e-6 or fde > 1e-4 or ge > 1e-8 or rr > 1e-9
     return bad, (f"real Simulation ({aniso}, {mapping}, recs={recs}): "
                  f"|Re<w,Jv>-<J^Tw,v>|/|.|={adj:.2e}; |Jv-FD|/|FD|="
-                 f"{fde:.2e}; |jtvec(r w)-gradient|={ge:.2e}")
+                 f"{fde:.2e}; |jtvec(r w)-gradient|={ge:.2e}; stored "
+                 f"residual after jtvec vs data residual {rr:.2e}")
 
 
 def _dispatch(job):
